@@ -6,6 +6,7 @@ import (
 	"bytes"
 	"encoding/binary"
 	"fmt"
+	"math/big"
 	"strings"
 	"time"
 	"unicode/utf8"
@@ -35,6 +36,30 @@ func Encode(enc string, t *c02.Target, v any) []byte {
 	default:
 		e = ttlv.NewTTLVEncoder()
 	}
+	if t.Tag != 0 {
+		e.TagAny(t.Tag, v)
+	} else {
+		e.Any(v)
+	}
+	return append([]byte{}, e.Bytes()...)
+}
+
+var historyVersions = []kmip.ProtocolVersion{kmip.V1_0, kmip.V1_4, kmip.V1_1, kmip.V1_2, kmip.V1_3}
+
+// encodeAfter encodes v with an encoder that has encoded a message of the given version before and was cleared.
+func encodeAfter(enc string, t *c02.Target, v any, hv kmip.ProtocolVersion) []byte {
+	var e ttlv.Encoder
+	switch enc {
+	case "xml":
+		e = ttlv.NewXMLEncoder()
+	case "json":
+		e = ttlv.NewJSONEncoder()
+	default:
+		e = ttlv.NewTTLVEncoder()
+	}
+	e.Any(&kmip.RequestMessage{Header: kmip.RequestHeader{ProtocolVersion: hv, BatchCount: 1},
+		BatchItem: []kmip.RequestBatchItem{{Operation: kmip.OperationActivate, RequestPayload: &payloads.ActivateRequestPayload{UniqueIdentifier: "earlier"}}}})
+	e.Clear()
 	if t.Tag != 0 {
 		e.TagAny(t.Tag, v)
 	} else {
@@ -97,6 +122,18 @@ func fixedPoint(c *core.Ctx, srcEnc, enc string, t *c02.Target, v any, input []b
 		c.Violation(core.PanicSig(pv, st)+":encode:"+route, fmt.Sprintf("encoding a value accepted from %s into %s panicked (%s input): %v", srcEnc, enc, class, pv),
 			map[string]any{"accepted_input": show(srcEnc, input), "target": t.Name, "stack": st})
 		return
+	}
+	// a forwarder keeps its encoders: the re-encoding does not depend on what the encoder handled before
+	if hv := historyVersions[c.CaseIndex()%len(historyVersions)]; true {
+		var mh []byte
+		if p, _, _ := core.Guard(func() { mh = encodeAfter(enc, t, v, hv) }); !p {
+			c.Count("reencodings_after_other_messages", 1)
+			if !bytes.Equal(mh, m1) {
+				c.Violation("C18:reencoding-depends-on-encoder-history:"+route+":"+diffClass(enc, m1, mh), fmt.Sprintf("an input accepted from %s (%s) is re-encoded in %s differently by an encoder that handled a KMIP %d.%d message before (and was cleared) than by a new encoder", srcEnc, class, enc, hv.ProtocolVersionMajor, hv.ProtocolVersionMinor),
+					map[string]any{"accepted_input": show(srcEnc, input), "target": t.Name, "new_encoder": show(enc, m1), "used_encoder": show(enc, mh)})
+				return
+			}
+		}
 	}
 	var v2 any
 	var err error
@@ -253,7 +290,11 @@ func crafted(c *core.Ctx, r *core.Rand, i int) {
 		c.Distinct(core.HashBytes(data))
 		Check(c, enc, t, v, data, class)
 	}
-	switch i % 8 {
+	switch i % 10 {
+	case 8:
+		deepNesting(c, r, i/10, try)
+	case 9:
+		explicitZeros(c, r, i/10, try)
 	case 0: // non-zero padding, over-long and odd-length big integers, odd booleans in generic trees
 		t := gen.RandTree(r, 4, 4)
 		try("ttlv", val, wire.GenOpts(t, wire.Opts{NonZeroPad: 0xAA}), "nonzero-padding")
@@ -366,9 +407,127 @@ func crafted(c *core.Ctx, r *core.Rand, i int) {
 			{"xml", `<ObjectType type="Enumeration" value="4294967295"/>`}, {"xml", `<TTLV tag="0x420057" type="Enumeration" value="SymmetricKey"/>`}, {"xml", `<TTLV tag="0x7FFFFFFF" type="Integer" value="1"/>`},
 			{"xml", `<ObjectType/>`}, {"xml", `<UniqueIdentifier type="TextString" value="a&#x9;b&#xA;c&#xD;d"/>`}, {"xml", `<Fresh type="Boolean" value="T"/>`},
 		}
-		d := docs[(i/8)%len(docs)]
+		d := docs[(i/10)%len(docs)]
 		c.Sample(map[string]any{"encoding": d.enc, "crafted": d.doc})
 		try(d.enc, val, []byte(d.doc), "hand-written")
+	}
+}
+
+// deepNesting: structures nested far deeper than any message of the specification (KMIP sets no limit; vendor
+// extensions and unknown payloads are free-form), presented in each encoding, bare and inside a request.
+func deepNesting(c *core.Ctx, r *core.Rand, k int, try func(enc string, t *c02.Target, data []byte, class string)) {
+	depth := []int{20, 31, 32, 33, 34, 40, 64, 100, 200}[k%9]
+	leaf := gen.RandLeaf(r, 0x540001+r.Intn(100), wire.Type(2+r.Intn(9)))
+	if leaf.Type == wire.TextString {
+		leaf.Bytes = []byte("deep")
+	}
+	n := leaf
+	for d := 0; d < depth; d++ {
+		n = wire.Node{Tag: 0x540100 + d%50, Type: wire.Structure, Children: []wire.Node{n}}
+	}
+	enc := encs[(k/9)%3]
+	write := func(t wire.Node) []byte {
+		switch enc {
+		case "xml":
+			return xtree.WriteXML(t)
+		case "json":
+			return xtree.WriteJSON(t)
+		}
+		return wire.Gen(t)
+	}
+	c.Count(fmt.Sprintf("deep_nesting.depth%d", depth), 1)
+	try(enc, c02.TargetByName("Value"), write(n), "deep-nesting")
+	// the same as the free-form payload of a vendor operation in a request
+	i32 := func(tag int, v int32) wire.Node {
+		return wire.Node{Tag: tag, Type: wire.Integer, Int: int64(v)}
+	}
+	n.Tag = kmip.TagRequestPayload
+	req := wire.Node{Tag: kmip.TagRequestMessage, Type: wire.Structure, Children: []wire.Node{
+		{Tag: kmip.TagRequestHeader, Type: wire.Structure, Children: []wire.Node{
+			{Tag: kmip.TagProtocolVersion, Type: wire.Structure, Children: []wire.Node{i32(kmip.TagProtocolVersionMajor, 1), i32(kmip.TagProtocolVersionMinor, 4)}},
+			i32(kmip.TagBatchCount, 1)}},
+		{Tag: kmip.TagBatchItem, Type: wire.Structure, Children: []wire.Node{
+			{Tag: kmip.TagOperation, Type: wire.Enumeration, Int: 0x80000042}, n}},
+	}}
+	try(enc, c02.TargetByName("RequestMessage"), write(req), "deep-nesting")
+}
+
+// explicitZeros: a valid message in which some scalar items are PRESENT with the value zero / empty (a peer that writes
+// every field, a length it does not know): accepted or not, what is accepted must be forwardable.
+func explicitZeros(c *core.Ctx, r *core.Rand, k int, try func(enc string, t *c02.Target, data []byte, class string)) {
+	data, t := c02.SeedMessage(r, "ttlv")
+	if k%3 == 2 {
+		data, t = c02.SeedPayload(r, "ttlv")
+	}
+	tree, err := wire.Parse(data)
+	if err != nil {
+		return
+	}
+	var leaves, preferred []*wire.Node
+	tree.Walk(func(_ []int, x *wire.Node) {
+		if x.Type == wire.Structure {
+			return
+		}
+		leaves = append(leaves, x)
+		if x.Tag == kmip.TagCryptographicLength || x.Tag == kmip.TagCryptographicAlgorithm || x.Type == wire.Integer || x.Type == wire.LongInteger || x.Type == wire.Interval {
+			preferred = append(preferred, x)
+		}
+	})
+	if len(leaves) == 0 {
+		return
+	}
+	if k%2 == 1 {
+		// a key block (or attribute) whose Cryptographic Length / Algorithm is present with the value 0
+		find := func() []*wire.Node {
+			var out []*wire.Node
+			tree.Walk(func(_ []int, x *wire.Node) {
+				if x.Type != wire.Structure && (x.Tag == kmip.TagCryptographicLength || x.Tag == kmip.TagCryptographicAlgorithm) {
+					out = append(out, x)
+				}
+			})
+			return out
+		}
+		ks := find()
+		for tries := 0; len(ks) == 0 && tries < 40; tries++ {
+			data, t = c02.SeedMessage(r, "ttlv")
+			if tree, err = wire.Parse(data); err != nil {
+				return
+			}
+			ks = find()
+		}
+		if len(ks) > 0 {
+			x := ks[r.Intn(len(ks))]
+			x.Int = 0
+			c.Count("explicit_zero.key-length-or-algorithm", 1)
+			leaves = nil
+		}
+	}
+	for q := 1 + r.Intn(3); q > 0 && len(leaves) > 0; q-- {
+		pool := leaves
+		if len(preferred) > 0 && r.P(2, 3) {
+			pool = preferred
+		}
+		x := pool[r.Intn(len(pool))]
+		switch x.Type {
+		case wire.TextString, wire.ByteString:
+			x.Bytes = nil
+		case wire.BigInteger:
+			x.Big = new(big.Int)
+		default:
+			x.Int = 0
+		}
+	}
+	for _, enc := range encs {
+		var doc []byte
+		switch enc {
+		case "xml":
+			doc = xtree.WriteXML(tree)
+		case "json":
+			doc = xtree.WriteJSON(tree)
+		default:
+			doc = wire.Gen(tree)
+		}
+		try(enc, t, doc, "explicit-zero")
 	}
 }
 
@@ -503,7 +662,7 @@ func Spec() *core.Spec {
 			"for each accepted value v: enc(v) must decode and re-encode to identical bytes in the same encoding and in each other encoding in which v's text strings and dates are representable (predicates computed by the harness from v's binary tree). " +
 			"distinct = distinct accepted input byte strings",
 		Assumptions: []string{"representable in XML = valid UTF-8 consisting of XML 1.0 Chars; in JSON = valid UTF-8; dates within years 1..9999 for both", "TZ=UTC"},
-		Required:    []string{"accepted_inputs.ttlv", "accepted_inputs.xml", "accepted_inputs.json", "fixed_point_checks", "route.ttlv->xml", "route.json->ttlv", "route.xml->json", "crafted.json-lexical", "crafted.xml-lexical", "crafted.oasis", "large_inputs", "concurrent_forwardings"},
+		Required:    []string{"accepted_inputs.ttlv", "accepted_inputs.xml", "accepted_inputs.json", "fixed_point_checks", "route.ttlv->xml", "route.json->ttlv", "route.xml->json", "crafted.json-lexical", "crafted.xml-lexical", "crafted.oasis", "large_inputs", "crafted.explicit-zero", "crafted.deep-nesting", "reencodings_after_other_messages", "concurrent_forwardings"},
 		EvalCounter: "fixed_point_checks",
 		// a data race inside the codec while messages are forwarded concurrently (both stacks in package ttlv) means one
 		// message may be re-encoded with another one's content
